@@ -158,12 +158,10 @@ def space(K, p, thorough):
     sp["gssvx"] = (bases, V)
     # ---- ?gstrs
     bases = []
-    for tr in ("NOTRANS", "TRANS") + (("CONJ",) if p in "cz" else ()):
+    for tr in ("NOTRANS", "TRANS", "CONJ"):
         bases.append((tr, {"trans": K[tr], "L": mat(K, p, "L"), "U": mat(K, p, "U"), "B": mat(K, p, "B")}))
     bases.append(("n0", zero_n(bases[0][1], ["L", "U", "B"])))
     V = [("trans=3", 1, "value", {"trans": 3}), ("trans=-1", 1, "value", {"trans": -1})]
-    if p in "sd":
-        V.append(("trans=CONJ", 1, "value", {"trans": K["CONJ"]}))
     V += mat_viol(K, p, "L", 2, "L", thorough) + mat_viol(K, p, "U", 3, "U", thorough) + mat_viol(K, p, "B", 6, "DN", thorough)
     sp["gstrs"] = (bases, V)
     # ---- ?gsrfs
@@ -445,7 +443,6 @@ def reasons(c, K):
         if not _sq(r, "L") or not _sq(r, "U"): a.append("L-U-numbered-3-4")
         if not (lt("L") and ut("U") and dn("B")): a.append("type-tags-untested")
         if r["B.nc"] < 0: a.append("B.ncol-untested")
-        if p in "cz" and r["trans"] == K["CONJ"]: a.append("inner-trsv-rejects-C")
     elif rt == "gsrfs":
         if r["B.nc"] < 0 or r["X.nc"] != r["B.nc"]: a.append("ncol-untested")
     elif rt == "trsv":
